@@ -305,7 +305,7 @@ class Headers:
     async def repair(self, start_height=0):
         previous_header_hash = fail = None
         batch_size = 36
-        for height in range(start_height, self.height, batch_size):
+        for height in range(start_height, self.height + 1, batch_size):
             headers = self._read(height, batch_size)
             if len(headers) % self.header_size != 0:
                 headers = headers[:(len(headers) // self.header_size) * self.header_size]
